@@ -630,6 +630,13 @@ class Node:
             if isinstance(before, int):
                 # Inserting one by one at a fixed index reverses the order
                 topnodes = topnodes[::-1]  # (do not modify the source tree)
+            # Check all nodes first, so a refused call does not add some of them
+            for n in topnodes:
+                for c in self.children:
+                    if c._data_id == n._data_id:
+                        raise UniqueConstraintError(
+                            "Node.data already exists in parent"
+                        )
             for n in topnodes:
                 self.add_child(n, before=before, deep=deep)
             return n  # need to return a node
@@ -914,6 +921,11 @@ class Node:
         assert before is None
         if not self._children:
             raise ValueError("Need child nodes when `add_self=False`")
+        # Check all nodes first, so a refused call does not add some of them
+        for child in self.children:
+            for c in target.children:
+                if c._data_id == child._data_id:
+                    raise UniqueConstraintError("Node.data already exists in parent")
         res = None
         for child in self.children:
             n = target.add_child(child, before=None, deep=deep)
